@@ -212,10 +212,9 @@ def lookupStr : Lookup → String
   | .numbered n => s!"u:{n}"
   | .homog n => s!"h:{n}"
 
-partial def walkRec : Schema → String
-  | .leaf => "L"
-  | .node lk cs => "(" ++ lookupStr lk ++ " " ++ " ".intercalate (cs.map walkRec) ++ ")"
-  | .array n c => "(" ++ lookupStr (.homog n) ++ " " ++ walkRec c ++ ")"
+/-- the harness's recording `Walk` (`Rec` in rt.rs), run through the model's generic `traverse_all` -/
+def walkRec (s : Schema) : String :=
+  s.walkAll "L" (fun ws lk => "(" ++ lookupStr lk ++ " " ++ " ".intercalate ws ++ ")")
 
 def opMeta (s : Schema) : String :=
   let m := s.meta
